@@ -104,6 +104,50 @@ func runVortex(r *vlib.Run, g string) {
 				r.FailIn(g, key("accepts-forged-proof/false-claim-with-UAlpha-shifted-by-a-codeword"), name, "vortex Verify accepts a false claimed value when UAlpha is shifted by the same constant codeword ("+name+"): the opened columns are never compared with UAlpha", nil)
 			}
 		}
+		// targeted forgery preserving all but the Reed-Solomon membership test, one per extension coordinate: perturb one
+		// coordinate of UAlpha at a position that is not opened and move the first claimed value by the induced change of
+		// UAlpha(x), so that the claim/combination check and all column checks still hold
+		{
+			opened := map[int]bool{}
+			for _, sc := range inst.in.SelectedColumns {
+				opened[sc] = true
+			}
+			k := -1
+			for j := range inst.in.Proof.UAlpha {
+				if !opened[j] {
+					k = j
+					break
+				}
+			}
+			if k >= 0 {
+				base, err0 := vortex.EvalFextPolyLagrange(inst.in.Proof.UAlpha, inst.in.EvaluationPoint)
+				for ci, delta := range []fext.E4{e4(3, 0, 0, 0), e4(0, 3, 0, 0), e4(0, 0, 3, 0), e4(0, 0, 0, 3)} {
+					if err0 != nil {
+						break
+					}
+					ua := inst.in.Proof.UAlpha
+					saveU, saveY := ua[k], inst.in.ClaimedValues[0]
+					ua[k].Add(&ua[k], &delta)
+					now, err1 := vortex.EvalFextPolyLagrange(ua, inst.in.EvaluationPoint)
+					var diff fext.E4
+					diff.Sub(&now, &base)
+					inst.in.ClaimedValues[0].Add(&inst.in.ClaimedValues[0], &diff)
+					var err error
+					pn := vlib.Guard(func() { err = inst.params.Verify(inst.in) })
+					n++
+					ua[k], inst.in.ClaimedValues[0] = saveU, saveY
+					cn := []string{"B0.A0", "B0.A1", "B1.A0", "B1.A1"}[ci]
+					if err1 != nil {
+						continue
+					}
+					if pn != "" {
+						r.FailIn(g, key("panic-on-forged-proof"), name+": non-codeword in "+cn, pn, nil)
+					} else if err == nil {
+						r.FailIn(g, key("accepts-forged-proof/UAlpha-not-a-codeword-in-coordinate-"+cn), name, "vortex Verify accepts a false claimed value with a UAlpha that is not a Reed-Solomon codeword in coordinate "+cn+" ("+name+")", nil)
+					}
+				}
+			}
+		}
 		// an opened column replaced together with a consistent Merkle path of another commitment is caught by the root: covered by donor substitutions
 		r.Tag("argsys/vortex/" + name)
 	}
